@@ -24,8 +24,9 @@
    One action = one critical section / one channel or timer event.  [fx_ts]: the repair
    "release the store's lock before wg.Wait()".  [fx_ov]: the repair "an overlay that has
    been closed refuses new instances" (the refused instance's reader goroutine is stopped
-   and CreateProtocol returns an error).  Router.Stop is one opaque step here; that it
-   returns is the subject of Net/RouterClose.v. *)
+   and CreateProtocol returns an error).  Both repairs have landed: fx_ts = fx_ov = true is the code
+   as it is, the text of Close above is the code before F41.  Router.Stop is one opaque
+   step here; that it returns is the subject of Net/RouterClose.v. *)
 From Coq Require Import List Arith Bool Lia.
 Import ListNotations.
 
